@@ -117,6 +117,9 @@ pub struct GenOpts {
     pub schedule_knobs: bool,
     pub l1_short_pct: u32,
     pub growth_geometry: bool,
+    /// percent of runs that get the growth geometry (when growth_geometry is
+    /// not set for the whole profile)
+    pub growth_pct: u32,
     pub min_ops: u32,
     pub max_ops: u32,
     /// op weights: write, read, discard, flush, shrink, reopen, fsync, probe, getmapping
@@ -167,6 +170,7 @@ impl Default for GenOpts {
             schedule_knobs: true,
             l1_short_pct: 0,
             growth_geometry: false,
+            growth_pct: 0,
             min_ops: 5,
             max_ops: 40,
             op_weights: [40, 25, 12, 8, 3, 4, 1, 0, 3],
@@ -322,9 +326,15 @@ thread_local! {
     /// whether the configuration generated last has the allocator-stress shape
     /// (gen_steps, called next, adds the matching phases)
     static FRAG_NOW: std::cell::Cell<bool> = const { std::cell::Cell::new(false) };
+    static GROWTH_NOW: std::cell::Cell<bool> = const { std::cell::Cell::new(false) };
 }
 
 pub fn gen_cfg(rng: &mut Rng, o: &GenOpts) -> Cfg {
+    let growth = o.growth_geometry || (o.growth_pct > 0 && rng.below(100) < o.growth_pct as u64);
+    GROWTH_NOW.with(|f| f.set(growth));
+    let mut o = o.clone();
+    o.growth_geometry = growth;
+    let o = &o;
     let wide = !o.growth_geometry && o.wide_l1_pct > 0 && rng.below(100) < o.wide_l1_pct as u64;
     let frag = !o.growth_geometry && !wide && o.frag_pct > 0 && rng.below(100) < o.frag_pct as u64;
     FRAG_NOW.with(|f| f.set(frag));
@@ -704,18 +714,21 @@ pub fn gen_steps(rng: &mut Rng, cfg: &Cfg, o: &GenOpts) -> Vec<Step> {
     let allow_racy = rng.below(100) < o.racy_discard_pct as u64;
     let mut steps = Vec::new();
     let mut count = 0;
-    if o.growth_geometry {
+    if GROWTH_NOW.with(|f| f.get()) {
         // march across the disk so that the host file outgrows its refcount
         // blocks / refcount table / active L1 entries
         let cs = cfg.cs();
         let vend = cfg.vend();
         let mut pos = 0u64;
         let stride_max = (vend / 8).max(cs * 8);
+        // half of the runs fill the disk nearly gap-free: only then does the
+        // host file outgrow the refcount table
+        let jump_one_in = if rng.chance(1, 2) { 3 } else { 12 };
         while pos < vend && steps.len() < 40 {
             let len = (cs * rng.range(16, 480)).min(vend - pos).min(8 << 20);
             steps.push(Step::Seq(Op::Write { off: pos, len: len as u32 }));
             pos += len;
-            if rng.chance(1, 3) {
+            if rng.chance(1, jump_one_in) {
                 pos = (pos + cs * rng.below(stride_max / cs)).min(vend) / cs * cs;
             }
             match rng.below(8) {
